@@ -58,6 +58,14 @@ func (v *BufferedFile) Read(p []byte) (int, error) {
 			break
 		}
 
+		if v.currentOffset >= v.fileSize {
+			// end of the file: a short count, or io.EOF when nothing could be read
+			if outputOffset == 0 {
+				return 0, io.EOF
+			}
+			break
+		}
+
 		_, err := v.Seek(0, io.SeekCurrent) // we seek to where we are now to recenter the buffer
 		if err != nil {
 			return outputOffset, err
